@@ -51,6 +51,10 @@ type Q2 struct {
 	E map[string]Q3
 	F interface{}
 	G *QZ
+	// member names that spell a path through other members: a query cache keyed by a flattened form of the
+	// query must not confuse the member "B.A" with the member A of B
+	BdotA  int `json:"B.A"`
+	BslshA int `json:"B/A"`
 }
 
 type Q1 struct {
@@ -65,7 +69,7 @@ type Q1 struct {
 
 func c19Values() []interface{} {
 	q3 := Q3{A: 1, B: "b", C: []int{1, 2}}
-	q2 := Q2{A: 2, B: &q3, C: q3, D: []Q3{q3, {A: 9}}, E: map[string]Q3{"k": q3, "j": {B: "x"}}, F: q3, G: &QZ{"za", true, 3}}
+	q2 := Q2{A: 2, B: &q3, C: q3, D: []Q3{q3, {A: 9}}, E: map[string]Q3{"k": q3, "j": {B: "x"}}, F: q3, G: &QZ{"za", true, 3}, BdotA: 7, BslshA: 8}
 	q2b := Q2{A: 3, F: map[string]interface{}{"A": 1, "z": []interface{}{1}}}
 	full := Q1{A: 1, B: q2, C: &q2, D: []Q2{q2, q2b}, E: map[string]*Q2{"k": &q2, "n": nil}, F: &q2, G: "g"}
 	sparse := Q1{A: 0, B: q2b, C: nil, D: nil, E: nil, F: []interface{}{q3, &q2b, 1}, G: ""}
@@ -648,6 +652,9 @@ func c19Histories(c *work.Ctx) {
 		}
 		return []*json.FieldQuery{
 			mk(n("A")), mk(n("F")), mk(n("B", n("A"))), mk(n("C", n("b"))), mk(n("C", n("A")), n("A")), mk(n("G", n("ZA"))), mk(n("G", n("ZB"), n("ZC"))), mk(n("D", n("C"))), mk(n("E", n("b"))), mk(n("nope")), mk(n("F"), n("A")),
+			// queries whose flattened or re-ordered forms coincide: a member named like a path, a name selected twice
+			// with different sub-queries, the same selections in another order and nesting
+			mk(n("B.A")), mk(n("B/A")), mk(n("B"), n("A")), mk(n("C", n("A")), n("C", n("b"))), mk(n("C", n("A"), n("b"))), mk(n("C", n("b"), n("A"))), mk(n("C", n("b")), n("C", n("A"))), mk(n("A"), n("C", n("A"))),
 		}
 	}
 	depth := 3
